@@ -300,6 +300,15 @@ Definition H (n v : option (list N)) : hashinfo := mk_hashinfo n v None.
 Definition E (m : option meta) (h : option hashinfo) : ientry :=
   mk_ientry None m h None.
 
+(* full constructors (input-space audit): every Meta field incl. the eq=False ones, a HashInfo with an
+   obj_name label, an entry with a `loaded` flag *)
+Definition MF (isdir : bool) (size nfiles : option N) (isexec : bool)
+           (version_id etag checksum md5 : option (list N)) (inode mtime : option N)
+           (remote : option (list N)) (is_link : bool) (destination : option (list N)) (nlink : N) : meta :=
+  mk_meta isdir size nfiles isexec version_id etag checksum md5 inode mtime remote is_link destination nlink.
+Definition H3 (n v o : option (list N)) : hashinfo := mk_hashinfo n v o.
+Definition EL (m : option meta) (h : option hashinfo) (l : option bool) : ientry := mk_ientry None m h l.
+
 (* meta_cmp_key = lambda m: (m.isdir, m.isexec) if m else None *)
 Definition cmp_isdir_isexec : option meta -> N :=
   fun m => match m with
